@@ -237,6 +237,7 @@ func JPEG(t *tape.Tape, lbl string) (data []byte, desc string) {
 	}
 	// frame header
 	maxH, maxV := 1, 1
+	chromaH, chromaV := 1, 1
 	{
 		prec := 8
 		if hostile {
@@ -246,6 +247,15 @@ func JPEG(t *tape.Tape, lbl string) (data []byte, desc string) {
 		p = append(p, byte(ht>>8), byte(ht), byte(wd>>8), byte(wd), byte(ncomp))
 		for c := 0; c < ncomp; c++ {
 			h, v := 1, 1
+			if ncomp == 3 && c == 1 {
+				// chroma sampling: usually 1x1, now and then more samples than
+				// that (both chroma components alike)
+				chromaH = tape.Pick(t, lbl+".samp.ch", 1, 1, 1, 1, 2, 1, 2)
+				chromaV = tape.Pick(t, lbl+".samp.cv", 1, 1, 1, 1, 1, 2, 2)
+			}
+			if ncomp == 3 && c >= 1 {
+				h, v = chromaH, chromaV
+			}
 			if c == 0 || ncomp == 4 && c == 3 {
 				h = tape.Pick(t, lbl+".samp.h", 1, 1, 2, 2, 4)
 				v = tape.Pick(t, lbl+".samp.v", 1, 1, 2, 2)
